@@ -32,12 +32,13 @@ type c16In struct {
 	ID     []byte `json:"id"`   // the id the server intends (what the attribute value unescapes to)
 	Secret []byte `json:"secret"`
 	// connect only
-	Pre   string `json:"pre,omitempty"`   // ok | ws | refused | badheader:<variant>
-	Hdr   string `json:"hdr,omitempty"`   // std | noid | dq | idfirst | nsid
-	Wire  string `json:"wire,omitempty"`  // the escaped attribute value as sent
-	Reply string `json:"reply,omitempty"` // name in c16Replies, or "write-fail"
-	Close bool   `json:"close,omitempty"` // server closes right after the reply (no probe)
-	Depth int    `json:"depth,omitempty"` // other:deep-delegation-*: nesting depth of the reply, generated when it is sent
+	Pre       string `json:"pre,omitempty"`   // ok | ws | refused | badheader:<variant>
+	Hdr       string `json:"hdr,omitempty"`   // std | noid | dq | idfirst | nsid
+	Wire      string `json:"wire,omitempty"`  // the escaped attribute value as sent
+	Reply     string `json:"reply,omitempty"` // name in c16Replies, or "write-fail"
+	Close     bool   `json:"close,omitempty"` // server closes right after the reply (no probe)
+	lateProbe bool   // handler-reconnect: send the probe only after watching the accepted connection
+	Depth     int    `json:"depth,omitempty"` // other:deep-delegation-*: nesting depth of the reply, generated when it is sent
 	// digest-seq / reconnect: the SAME Component value is used for every entry, in order
 	Sessions []c16Sess `json:"sessions,omitempty"`
 }
@@ -50,6 +51,7 @@ type c16Sess struct {
 	Reply  string `json:"reply,omitempty"`
 	End    string `json:"end,omitempty"`    // how an established session ends: drop | server-close | client-close
 	Resume bool   `json:"resume,omitempty"` // call Resume() instead of Connect()
+	Down   bool   `json:"down,omitempty"`   // handler-reconnect: the server is not listening any more when this connection is attempted
 }
 
 type c16 struct{}
@@ -64,7 +66,7 @@ func (c16) Workers() int  { return 64 }
 // stanza decoder); the driver then finds the case among the ones in flight.
 func (c16) Journal() bool { return true }
 func (c16) Rule() string {
-	return "digest-seq cases: Component.handshake called 2-4 times on the SAME Component value with different (and repeated, empty) ids; reconnect cases: the SAME Component connects 2-4 times in a row (Connect/Resume) to the scripted server, a fresh escaped/non-ASCII/empty/1 kB stream id per connection, sessions ended by a TCP drop, a server-side stream close or Disconnect, optionally one refused or cut handshake in between (incl. a fixed family: an orderly closed established session followed by a connection on which the server hangs up or says something else instead of answering) - digest, error, state and routing of every connection are compared; the model is given the header bytes the server wrote and encoding/xml's tokens of the reply and reads the stream id / classifies the reply itself; digest cases: random (id, secret) byte strings through Component.handshake (lengths 0..1100 incl. every SHA-1 padding boundary, XML-special, non-ASCII, NUL/0xff bytes); connect cases: Component.Connect against a scripted TCP server, id sent XML-escaped in the stream header (entities, numeric references, either quote, missing attribute, 1 kB; random attribute layouts with namespace-qualified look-alikes xml:id / x:id / y:id before, after and on both sides of the unqualified id, prefix declarations before or after their use, id first / last / in the middle of many attributes), every reply kind (handshake forms, 25 stream-error conditions, 12 other packet kinds incl. a stanza whose delegation/forwarded payload is nested 3 to 300 000 levels deep, unknown/malformed/closed), transport failures and a failing handshake write; distinct = distinct (kind, total length mod 64, block count, id class, header, pre, reply); non-trivial = digest of a non-empty input, a connect case that reaches the reply, or a sequence of at least two handshakes"
+	return "handler-reconnect cases: an established connection is ended by the server with a stream error and the application's event handler reconnects from inside that callback (Disconnect + Resume); the second connection is refused with a stanza behind the refusal, accepted and watched for what the library does to it, answered otherwise, or the server is down; after every Connect/Resume, in every kind of case, Send is tried (accepted iff established), and after the end of every established session the state must become Disconnected; digest-seq cases: Component.handshake called 2-4 times on the SAME Component value with different (and repeated, empty) ids; reconnect cases: the SAME Component connects 2-4 times in a row (Connect/Resume) to the scripted server, a fresh escaped/non-ASCII/empty/1 kB stream id per connection, sessions ended by a TCP drop, a server-side stream close or Disconnect, optionally one refused or cut handshake in between (incl. a fixed family: an orderly closed established session followed by a connection on which the server hangs up or says something else instead of answering) - digest, error, state and routing of every connection are compared; the model is given the header bytes the server wrote and encoding/xml's tokens of the reply and reads the stream id / classifies the reply itself; digest cases: random (id, secret) byte strings through Component.handshake (lengths 0..1100 incl. every SHA-1 padding boundary, XML-special, non-ASCII, NUL/0xff bytes); connect cases: Component.Connect against a scripted TCP server, id sent XML-escaped in the stream header (entities, numeric references, either quote, missing attribute, 1 kB; random attribute layouts with namespace-qualified look-alikes xml:id / x:id / y:id before, after and on both sides of the unqualified id, prefix declarations before or after their use, id first / last / in the middle of many attributes), every reply kind (handshake forms, 25 stream-error conditions, 12 other packet kinds incl. a stanza whose delegation/forwarded payload is nested 3 to 300 000 levels deep, unknown/malformed/closed), transport failures and a failing handshake write; distinct = distinct (kind, total length mod 64, block count, id class, header, pre, reply); non-trivial = digest of a non-empty input, a connect case that reaches the reply, or a sequence of at least two handshakes"
 }
 
 // ---------------------------------------------------------------- replies
@@ -491,6 +493,37 @@ func (c16) Gen(r *rand.Rand, tier string) []interface{} {
 			out = append(out, in)
 		}
 	}
+	// the application's handler reconnects from inside the stream-error callback of an established
+	// connection; the second connection is refused (a stanza behind the refusal must not be
+	// routed), accepted (the library must leave it alone; a later stanza is routed), answered by
+	// something else, or the server is down by then (an error, no crash)
+	for _, second := range []string{"stream-error:not-authorized", "handshake", "other:message", "unknown-ns", "stream-error:conflict", "handshake-text", "DOWN"} {
+		in := c16In{Kind: "handler-reconnect", Secret: []byte("mypass")}
+		in.Sessions = append(in.Sessions, sess("first&1", "std", "handshake", "", false))
+		if second == "DOWN" {
+			in.Sessions = append(in.Sessions, c16Sess{Down: true, Resume: true})
+		} else {
+			in.Sessions = append(in.Sessions, sess("second<2>", "dq", second, "", true))
+		}
+		out = append(out, in)
+	}
+	nhr := 6
+	if tier == "thorough" {
+		nhr = 60
+	}
+	for i := 0; i < nhr; i++ {
+		in := c16In{Kind: "handler-reconnect", Secret: c16GenSecret(r)}
+		in.Sessions = append(in.Sessions, sess(string(c16GenID(r, true)), "lay", okReplies[r.Intn(len(okReplies))], "", false))
+		switch r.Intn(5) {
+		case 0:
+			in.Sessions = append(in.Sessions, c16Sess{Down: true, Resume: true})
+		case 1, 2:
+			in.Sessions = append(in.Sessions, sess(string(c16GenID(r, true)), "lay", okReplies[r.Intn(len(okReplies))], "", true))
+		default:
+			in.Sessions = append(in.Sessions, sess(string(c16GenID(r, true)), "lay", badReplies[r.Intn(5)], "", true))
+		}
+		out = append(out, in)
+	}
 	{ // a refused handshake in the middle must not disturb the next one either
 		in := c16In{Kind: "reconnect", Secret: []byte("mypass")}
 		in.Sessions = append(in.Sessions, sess("one", "std", "handshake", "drop", false), sess("two", "std", "stream-error:not-authorized", "client-close", true),
@@ -705,14 +738,15 @@ func c16Header(in c16In) (prolog, rest string) {
 
 // what the server saw and did, reported back to Run
 type c16Srv struct {
-	accepted     bool
-	gotOpen      bool
-	text         string   // character data of the component's <handshake> element
-	gotText      bool     // the component sent a complete first element
-	dismissed    []string // connections that did not open a component stream (why)
-	notHandshake string   // set when that element is not a childless jabber:component:accept handshake
-	note         string   // "" or a timeout/error marker that must not occur in a sound run
-	probeSent    bool
+	accepted       bool
+	gotOpen        bool
+	text           string   // character data of the component's <handshake> element
+	gotText        bool     // the component sent a complete first element
+	peerSpokeEarly string   // lateProbe: what the component sent (or [EOF]) right after being accepted
+	dismissed      []string // connections that did not open a component stream (why)
+	notHandshake   string   // set when that element is not a childless jabber:component:accept handshake
+	note           string   // "" or a timeout/error marker that must not occur in a sound run
+	probeSent      bool
 }
 
 // The server reads the component's side of the stream as XML, not as bytes: elements are
@@ -894,6 +928,26 @@ func c16Serve(ln net.Listener, in c16In, atProlog <-chan struct{}, released chan
 	}
 	rp, _ := c16ReplyByName(in.Reply)
 	out := rp.wire
+	if in.lateProbe && rp.open && len(rp.abs.L) > 0 && rp.abs.L[0].Z == 0 {
+		// reply now; then watch the connection for half a second: the component has no reason
+		// to say anything or to hang up; only then send the probe
+		conn.Write([]byte(out))
+		conn.SetReadDeadline(time.Now().Add(500 * time.Millisecond))
+		buf := make([]byte, 256)
+		n, rerr := conn.Read(buf)
+		if n > 0 || rerr == io.EOF {
+			res.peerSpokeEarly = string(buf[:n])
+			if rerr == io.EOF {
+				res.peerSpokeEarly += "[EOF]"
+			}
+			return
+		}
+		conn.SetReadDeadline(time.Time{})
+		conn.Write([]byte(c16Probe))
+		res.probeSent = true
+		c16AnswerClose(conn, dec)
+		return
+	}
 	if strings.HasPrefix(in.Reply, "other:deep-delegation-") {
 		out = c16DeepReply(strings.TrimPrefix(in.Reply, "other:deep-delegation-"), in.Depth)
 		conn.SetWriteDeadline(time.Now().Add(c16Patience(in)))
@@ -913,6 +967,10 @@ func c16Serve(ln net.Listener, in c16In, atProlog <-chan struct{}, released chan
 		case cmd := <-end:
 			switch cmd {
 			case "drop": // hang up without a word
+				return
+			case "stream-error": // an established session is ended by the server with a stream error
+				conn.Write([]byte("<stream:error><system-shutdown xmlns='" + nsStreams + "'/></stream:error>"))
+				c16AnswerClose(conn, dec)
 				return
 			case "server-close": // close the stream from the server side, then wait for the peer
 				conn.Write([]byte("</stream:stream>"))
@@ -967,6 +1025,9 @@ func (c16) Run(inp interface{}) Sx {
 	}
 	if in.Kind == "reconnect" {
 		return c16RunReconnect(in)
+	}
+	if in.Kind == "handler-reconnect" {
+		return c16RunHandlerReconnect(in)
 	}
 	ln, err := listenLoopback()
 	if err != nil {
@@ -1069,12 +1130,44 @@ func (c16) Run(inp interface{}) Sx {
 	mu.Lock()
 	evs := append([]Sx{}, events...)
 	mu.Unlock()
+	sendOK := c16TrySend(c)
 	cleanup()
 	if srv.note != "" {
 		return L(SBytes("SERVER"), SBytes(srv.note))
 	}
-	return L(c16TextObs(srv), Z(errCode), Z(int64(state)), LS(evs), B(handled))
+	return L(c16TextObs(srv), Z(errCode), Z(int64(state)), LS(evs), B(handled), B(sendOK))
 }
+
+// c16TrySend: does the component accept a stanza for sending now?  (After a failed Connect it
+// must not: there is no authenticated stream to put it on.)
+func c16TrySend(c *xmpp.Component) bool {
+	done := make(chan bool, 1)
+	go func() {
+		done <- c.Send(stanza.Message{Attrs: stanza.Attrs{To: "user@example.org"}, Body: "sent after Connect returned"}) == nil
+	}()
+	select {
+	case ok := <-done:
+		return ok
+	case <-time.After(c16Wait):
+		return false
+	}
+}
+
+// c16AwaitState waits (bounded) until the component's state is want; returns the state seen last.
+func c16AwaitState(c *xmpp.Component, want uint8, bound time.Duration) uint8 {
+	deadline := time.Now().Add(bound)
+	for {
+		st := xmpp.VerifConnState(&c.EventManager)
+		if st == want || time.Now().After(deadline) {
+			return st
+		}
+		time.Sleep(2 * time.Millisecond)
+	}
+}
+
+// how long the end of an established session may take to be reported (an event that is
+// missing altogether costs this much per session, so it is not c16Wait)
+const c16EndWait = 10 * time.Second
 
 // c16ErrCode: 0 nil, 1 ConnError non-permanent, 2 ConnError permanent, 3 other error
 func c16ErrCode(err error) int64 {
@@ -1182,8 +1275,10 @@ func c16RunReconnect(in c16In) Sx {
 		case <-time.After(wait):
 		}
 		state := xmpp.VerifConnState(&c.EventManager)
+		sendOK := c16TrySend(c)
 		// end the session
 		last := k == len(in.Sessions)-1
+		var endState uint8
 		switch {
 		case cerr == nil && s.End == "drop":
 			end <- "drop"
@@ -1193,13 +1288,14 @@ func c16RunReconnect(in c16In) Sx {
 				go disconnect()
 				return c16Timeout(fmt.Sprintf("connection %d: the component never noticed that the server dropped the connection", k+1))
 			}
+			endState = c16AwaitState(c, 0, c16EndWait)
 			if last {
 				go disconnect() // closes the local socket; nothing answers, returns after ConnectTimeout
 			}
 		case cerr == nil && s.End == "server-close":
 			end <- "server-close"
-			// the receive loop now sits in ReceivedStreamClose until somebody calls Close
-			time.Sleep(5 * time.Millisecond)
+			// the server has closed the stream: the component must report the disconnection on its own
+			endState = c16AwaitState(c, 0, c16EndWait)
 			if !disconnect() {
 				return c16Timeout(fmt.Sprintf("connection %d: Disconnect after the server's stream close did not return", k+1))
 			}
@@ -1207,6 +1303,11 @@ func c16RunReconnect(in c16In) Sx {
 			end <- "client-close"
 			if !disconnect() {
 				return c16Timeout(fmt.Sprintf("connection %d: Disconnect did not return", k+1))
+			}
+			if cerr == nil {
+				endState = c16AwaitState(c, 0, c16EndWait)
+			} else {
+				endState = xmpp.VerifConnState(&c.EventManager)
 			}
 		}
 		select {
@@ -1217,9 +1318,157 @@ func c16RunReconnect(in c16In) Sx {
 		if srv.note != "" {
 			return L(SBytes("SERVER"), SBytes(fmt.Sprintf("connection %d: %s", k+1, srv.note)))
 		}
-		out = append(out, L(c16TextObs(srv), Z(c16ErrCode(cerr)), Z(int64(state)), B(handled)))
+		out = append(out, L(c16TextObs(srv), Z(c16ErrCode(cerr)), Z(int64(state)), B(handled), B(sendOK), Z(int64(endState))))
 	}
 	return LS(out)
+}
+
+// c16RunHandlerReconnect: the first connection is established; the server then ends it with a
+// stream error; the application's event handler reconnects from INSIDE the stream-error
+// callback (Disconnect, then Resume - what a StreamManager does for a client).  Sessions[1]
+// scripts that second connection (or the server being down).  Observed: both connections as in
+// a reconnect case, and whether the library itself said anything on / closed the second
+// connection after it had been accepted.
+func c16RunHandlerReconnect(in c16In) Sx {
+	if len(in.Sessions) != 2 {
+		return L(SBytes("HARNESS"), SBytes("handler-reconnect needs two sessions"))
+	}
+	ln, err := listenLoopback()
+	if err != nil {
+		return L(SBytes("listen-failed"), SBytes(err.Error()))
+	}
+	defer ln.Close()
+	probe := make(chan struct{}, 8)
+	router := xmpp.NewRouter()
+	router.NewRoute().HandlerFunc(func(s xmpp.Sender, p stanza.Packet) {
+		if _, ok := p.(stanza.Message); !ok {
+			return // the stream error itself is handed to the router too
+		}
+		select {
+		case probe <- struct{}{}:
+		default:
+		}
+	})
+	tcfg := xmpp.TransportConfiguration{Address: ln.Addr().String(), Domain: "comp.localhost", ConnectTimeout: 1}
+	c, _ := xmpp.NewComponent(xmpp.ComponentOptions{TransportConfiguration: tcfg, Domain: "comp.localhost", Secret: string(in.Secret),
+		Name: "verif", Category: "gateway", Type: "service"}, router, func(error) {})
+	resumed := make(chan error, 1)
+	var once sync.Once
+	c.SetHandler(func(e xmpp.Event) error {
+		if xmpp.VerifEventState(e) == 3 && e.StreamError == "system-shutdown" {
+			once.Do(func() {
+				c.Disconnect()
+				resumed <- c.Resume()
+			})
+		}
+		return nil
+	})
+	disconnect := func() {
+		d := make(chan struct{})
+		go func() { c.Disconnect(); close(d) }()
+		select {
+		case <-d:
+		case <-time.After(c16Wait):
+		}
+	}
+	mk := func(s c16Sess) c16In {
+		hdr := s.Hdr
+		if hdr == "" {
+			hdr = "std"
+		}
+		return c16In{Kind: "connect", ID: s.ID, Secret: in.Secret, Pre: "ok", Hdr: hdr, Wire: s.Wire, Reply: s.Reply}
+	}
+	// ---- first connection
+	s1, s2 := in.Sessions[0], in.Sessions[1]
+	srv1, done1, end1 := &c16Srv{}, make(chan struct{}), make(chan string, 1)
+	go c16Serve(ln, mk(s1), nil, nil, srv1, done1, end1)
+	errCh := make(chan error, 1)
+	go func() { errCh <- c.Connect() }()
+	var err1 error
+	select {
+	case err1 = <-errCh:
+	case <-time.After(2 * c16Wait):
+		end1 <- "drop"
+		go disconnect()
+		return c16Timeout("connection 1: Connect did not return")
+	}
+	if c16DialTimedOut(err1) {
+		disconnect()
+		return L(SBytes("dial-timeout"), SBytes("connection 1"))
+	}
+	handled1 := false
+	if err1 == nil {
+		select {
+		case <-probe:
+			handled1 = true
+		case <-time.After(c16Wait):
+		}
+	}
+	state1 := xmpp.VerifConnState(&c.EventManager)
+	send1 := c16TrySend(c)
+	first := L(c16TextObs(srv1), Z(c16ErrCode(err1)), Z(int64(state1)), B(handled1), B(send1))
+	if err1 != nil {
+		end1 <- "client-close"
+		disconnect()
+		return L(LS([]Sx{first}), B(false))
+	}
+	// ---- the server for the second connection, then the stream error on the first
+	srv2, done2, end2 := &c16Srv{}, make(chan struct{}), make(chan string, 1)
+	if s2.Down {
+		ln.Close()
+		close(done2)
+	} else {
+		in2 := mk(s2)
+		in2.lateProbe = true
+		go c16Serve(ln, in2, nil, nil, srv2, done2, end2)
+	}
+	end1 <- "stream-error"
+	var err2 error
+	select {
+	case err2 = <-resumed:
+	case <-time.After(3 * c16Wait):
+		go disconnect()
+		return c16Timeout("the event handler's Disconnect + Resume did not return")
+	}
+	if c16DialTimedOut(err2) && !s2.Down {
+		disconnect()
+		return L(SBytes("dial-timeout"), SBytes("connection 2"))
+	}
+	// a stanza behind a refusal would be routed by the receiver of the FIRST connection, which
+	// on the unrepaired code first sits out a Close (ConnectTimeout = 1 s): wait well beyond it
+	wait := 2500 * time.Millisecond
+	if err2 == nil {
+		wait = c16Wait
+	}
+	handled2 := false
+	select {
+	case <-probe:
+		handled2 = true
+	case <-time.After(wait):
+	}
+	state2 := xmpp.VerifConnState(&c.EventManager)
+	send2 := c16TrySend(c)
+	end2 <- "client-close"
+	disconnect()
+	ln.Close()
+	for _, d := range []chan struct{}{done1, done2} {
+		select {
+		case <-d:
+		case <-time.After(2 * c16Wait):
+			return c16Timeout("server side did not finish")
+		}
+	}
+	for i, sv := range []*c16Srv{srv1, srv2} {
+		if sv.note != "" {
+			return L(SBytes("SERVER"), SBytes(fmt.Sprintf("connection %d: %s", i+1, sv.note)))
+		}
+	}
+	if srv2.peerSpokeEarly != "" && err2 == nil {
+		// the library itself spoke on / closed the connection it had just reported established
+		handled2 = false
+	}
+	second := L(c16TextObs(srv2), Z(c16ErrCode(err2)), Z(int64(state2)), B(handled2), B(send2))
+	return L(LS([]Sx{first, second}), B(srv2.peerSpokeEarly != "" && err2 == nil))
 }
 
 // ---------------------------------------------------------------- model input
@@ -1269,13 +1518,25 @@ const c16EncProlog = "<?xml version='1.0' encoding='x-verif'?>"
 // the first syntax error or the end of what the server sends.  Which of these replies is a
 // handshake, a stream error, another packet or an error is the MODEL's business
 // (Model/Parser.v classify / next_packet through Model/ComponentWire.v).
-func c16ReplyTokens(header, wire string) Sx {
+// ending: 0 = the input ended between elements (io.EOF, or "unexpected EOF" with only the
+// stream element open), 1 = it ended inside an element of the reply, 2 = a syntax error.
+func c16ReplyTokens(header, wire string) (Sx, int) {
 	d := xml.NewDecoder(strings.NewReader(header + wire))
 	var toks []Sx
 	first := true
+	depth, ending := 0, 0
 	for {
 		tok, err := d.Token()
 		if err != nil {
+			var syn *xml.SyntaxError
+			switch {
+			case err == io.EOF || (errors.As(err, &syn) && syn.Msg == "unexpected EOF"):
+				if depth > 0 {
+					ending = 1
+				}
+			default:
+				ending = 2
+			}
 			break
 		}
 		if first { // everything up to and including the stream header's start tag is not part of the reply
@@ -1286,12 +1547,14 @@ func c16ReplyTokens(header, wire string) Sx {
 		}
 		switch t := tok.(type) {
 		case xml.StartElement:
+			depth++
 			as := make([]Sx, len(t.Attr))
 			for i, a := range t.Attr {
 				as[i] = L(SBytes(a.Name.Space), SBytes(a.Name.Local), SBytes(a.Value))
 			}
 			toks = append(toks, L(Z(0), SBytes(t.Name.Space), SBytes(t.Name.Local), LS(as)))
 		case xml.EndElement:
+			depth--
 			toks = append(toks, L(Z(1), SBytes(t.Name.Space), SBytes(t.Name.Local)))
 		case xml.CharData:
 			toks = append(toks, L(Z(2), SBytes(string(t))))
@@ -1299,12 +1562,15 @@ func c16ReplyTokens(header, wire string) Sx {
 			toks = append(toks, L(Z(3)))
 		}
 	}
-	return LS(toks)
+	return LS(toks), ending
 }
 
 // c16ModelReply: the reply as the model gets it: tokens wherever the reply is a document the
-// tokenizer can be run on; the abstract class only for a failing write and for the replies
-// generated from a depth parameter beyond what is worth shipping as tokens.
+// tokenizer can be run on to the end; the abstract class for a failing write, for the replies
+// generated from a depth parameter beyond what is worth shipping as tokens, and where the
+// tokenizer itself stops: on a syntax error (3: unreadable answer) or inside an element when
+// the server hangs up (5: connection lost).  An answer that simply does not come (the tokens
+// run out between elements) is classified by the model.
 func c16ModelReply(in c16In) Sx {
 	if in.Reply == "write-fail" {
 		return L(Z(3))
@@ -1324,7 +1590,14 @@ func c16ModelReply(in c16In) Sx {
 	if strings.HasPrefix(in.Pre, "badheader:") || in.Pre == "ws" || in.Pre == "refused" {
 		return rp.abs // never read
 	}
-	return L(Z(4), c16ReplyTokens(hdr, wire))
+	toks, ending := c16ReplyTokens(hdr, wire)
+	switch ending {
+	case 1: // the connection is lost inside the answer: the token stream does not show why it stops
+		return L(Z(5))
+	case 2: // not XML: there are no tokens to classify
+		return L(Z(3))
+	}
+	return L(Z(4), toks)
 }
 
 func c16ModelPre(in c16In) Sx {
@@ -1349,15 +1622,22 @@ func (c16) Input(inp interface{}) Sx {
 		}
 		return L(Z(2), LS(ids), SBytes(string(in.Secret)))
 	}
-	if in.Kind == "reconnect" {
+	if in.Kind == "reconnect" || in.Kind == "handler-reconnect" {
 		ss := make([]Sx, len(in.Sessions))
 		for i, s := range in.Sessions {
+			if s.Down {
+				ss[i] = L(Z(1))
+				continue
+			}
 			hdr := s.Hdr
 			if hdr == "" {
 				hdr = "std"
 			}
 			sin := c16In{Kind: "connect", ID: s.ID, Secret: in.Secret, Pre: "ok", Hdr: hdr, Wire: s.Wire, Reply: s.Reply}
 			ss[i] = L(Z(3), SBytes(c16HeaderBytes(sin)), c16ModelReply(sin))
+		}
+		if in.Kind == "handler-reconnect" {
+			return L(Z(5), LS(ss), SBytes(string(in.Secret)))
 		}
 		return L(Z(3), LS(ss), SBytes(string(in.Secret)))
 	}
@@ -1412,7 +1692,7 @@ func (c16) Oracle(inp interface{}, obs Sx) (string, string) {
 			if in.Kind == "digest-seq" {
 				got = string(bytesOf(o))
 			} else {
-				if len(o.L) != 4 {
+				if len(o.L) != 6 {
 					return "shape", "shape"
 				}
 				if have = len(o.L[0].L) == 1; have {
@@ -1452,14 +1732,73 @@ func (c16) Oracle(inp interface{}, obs Sx) (string, string) {
 			if in.Kind == "reconnect" {
 				rp, _ := c16ReplyByName(s.Reply)
 				expectOK := len(rp.abs.L) > 0 && rp.abs.L[0].Z == 0
-				if msg, sig := c16OutcomeOracle(expectOK, o.L[1].Z, o.L[2].Z, o.L[3].Z == 1, s.Reply+fmt.Sprintf(" (connection %d)", k+1)); msg != "" {
+				what := s.Reply + fmt.Sprintf(" (connection %d)", k+1)
+				if msg, sig := c16OutcomeOracle(expectOK, o.L[1].Z, o.L[2].Z, o.L[3].Z == 1, what); msg != "" {
 					return msg, sig
+				}
+				if msg, sig := c16SendOracle(expectOK, o.L[4].Z == 1, what); msg != "" {
+					return msg, sig
+				}
+				if msg, sig := c16CutOracle(rp, false, o.L[1].Z, what); msg != "" {
+					return msg, sig
+				}
+				if expectOK && o.L[5].Z == 2 {
+					how := map[string]string{"drop": "the server dropped the connection", "server-close": "the server closed the stream (</stream:stream>)",
+						"client-close": "the application called Disconnect and the server answered the close"}[s.End]
+					sig := "established-after-" + map[string]string{"drop": "connection-loss", "server-close": "server-stream-close", "client-close": "disconnect"}[s.End]
+					return fmt.Sprintf("connection %d: %s, and %v later the component still reports SessionEstablished", k+1, how, c16EndWait), sig
 				}
 			}
 		}
 		return "", ""
 	}
-	if len(obs.L) != 5 {
+	if in.Kind == "handler-reconnect" {
+		if len(obs.L) != 2 || len(obs.L[0].L) == 0 {
+			return "shape", "shape"
+		}
+		for k, o := range obs.L[0].L {
+			s := in.Sessions[k]
+			if len(o.L) != 5 {
+				return "shape", "shape"
+			}
+			what := fmt.Sprintf("%s (connection %d, made by the event handler from inside the stream-error callback of connection 1)", s.Reply, k+1)
+			if k == 0 {
+				what = s.Reply + " (connection 1)"
+			}
+			rp, _ := c16ReplyByName(s.Reply)
+			expectOK := !s.Down && len(rp.abs.L) > 0 && rp.abs.L[0].Z == 0
+			if s.Down {
+				what = "no answer: the server was down (connection 2, attempted by the event handler)"
+				if o.L[1].Z == 2 {
+					return "a refused TCP connection (server not up) is reported as a PERMANENT error by Resume", "refused-dial-reported-permanent"
+				}
+			} else {
+				if len(o.L[0].L) != 1 || o.L[0].L[0].K != "s" {
+					return fmt.Sprintf("connection %d: the server received no handshake element", k+1), "no-handshake-sent"
+				}
+				if msg, sig := c16DigestOracle(string(bytesOf(o.L[0].L[0])), s.ID, in.Secret); msg != "" {
+					return fmt.Sprintf("connection %d: %s", k+1, msg), sig
+				}
+			}
+			if k == 1 && expectOK && obs.L[1].Z == 1 {
+				return "the second connection was accepted by the server and reported established; the library itself then wrote on it / closed it although nobody called Disconnect (the receiver of the FIRST connection acting on the component's new transport)", "established-connection-closed-by-library"
+			}
+			if k == 1 && !expectOK && o.L[3].Z == 1 {
+				return "a stanza the server wrote behind the refusal of the second connection (" + what + ") was routed to the application's handler: the receiver of the first connection reads the new connection", "routed-after-refused-reconnect"
+			}
+			if msg, sig := c16OutcomeOracle(expectOK, o.L[1].Z, o.L[2].Z, o.L[3].Z == 1, what); msg != "" {
+				return msg, sig
+			}
+			if msg, sig := c16SendOracle(expectOK, o.L[4].Z == 1, what); msg != "" {
+				return msg, sig
+			}
+		}
+		if len(obs.L[0].L) != len(in.Sessions) {
+			return "the first connection was not established", "shape"
+		}
+		return "", ""
+	}
+	if len(obs.L) != 6 {
 		return "shape", "shape"
 	}
 	_, writeOK, reply := c16Abstract(in)
@@ -1486,7 +1825,43 @@ func (c16) Oracle(inp interface{}, obs Sx) (string, string) {
 			}
 		}
 	}
-	return c16OutcomeOracle(expectOK, errCode, state, handled, in.Reply+" (pre "+in.Pre+")")
+	what := in.Reply + " (pre " + in.Pre + ")"
+	if msg, sig := c16OutcomeOracle(expectOK, errCode, state, handled, what); msg != "" {
+		return msg, sig
+	}
+	if msg, sig := c16SendOracle(expectOK, obs.L[5].Z == 1, what); msg != "" {
+		return msg, sig
+	}
+	if in.Pre == "refused" && errCode == 2 {
+		return "a refused TCP connection (server not up) is reported as a PERMANENT error by Connect", "refused-dial-reported-permanent"
+	}
+	if reaches {
+		rp, _ := c16ReplyByName(in.Reply)
+		return c16CutOracle(rp, in.Close, errCode, what)
+	}
+	return "", ""
+}
+
+// after a failed Connect there is no authenticated stream: Send must not accept stanzas (and the
+// connection of the failed attempt must not stay behind, open); after a successful one it must
+func c16SendOracle(expectOK, sendOK bool, reply string) (string, string) {
+	switch {
+	case !expectOK && sendOK:
+		return "Connect failed - the reply was " + reply + " - and Send afterwards returns nil: the connection of the refused attempt is still open and the stanza is written on it", "send-accepted-after-failed-connect"
+	case expectOK && !sendOK:
+		return "established, but Send returns an error: " + reply, "send-refused-on-established"
+	}
+	return "", ""
+}
+
+// the connection is lost while the answer is awaited or read (the server hangs up): an error,
+// but not a permanent one
+func c16CutOracle(rp c16Reply, closeAfter bool, errCode int64, reply string) (string, string) {
+	cut := map[string]bool{"close": true, "text-only": true, "malformed:truncated": true, "malformed:handshake-start-then-close": true}[rp.name]
+	if cut && errCode == 2 {
+		return "the server hung up instead of answering the handshake (" + reply + ") and the error is flagged PERMANENT", "cut-connection-reported-permanent"
+	}
+	return "", ""
 }
 
 // c16HeaderDiagnosis names what was hashed instead of the stream id when the digest is wrong
@@ -1558,6 +1933,14 @@ func (c16) Key(inp interface{}) (string, bool) {
 		hist("digest:id-" + cls)
 		hist(fmt.Sprintf("digest:blocks-%d", (total+9+63)/64))
 		return fmt.Sprintf("d/%d/%d/%s/%d", total%64, (total+9+63)/64, cls, len(in.Secret)%4), total > 0
+	}
+	if in.Kind == "handler-reconnect" {
+		second := "DOWN"
+		if len(in.Sessions) == 2 && !in.Sessions[1].Down {
+			second = in.Sessions[1].Reply
+		}
+		hist("handler-reconnect:second-" + second)
+		return fmt.Sprintf("hr/%s/%s/%d", in.Sessions[0].Hdr, second, (len(in.Sessions[0].ID)+len(in.Secret))%64), true
 	}
 	if in.Kind == "digest-seq" || in.Kind == "reconnect" {
 		var b strings.Builder
